@@ -196,3 +196,14 @@ PROPS["C14"] = dict(
         dict(test="^TestC14_RealRotation$", quick=dict(timeout=900), thorough=dict(shards=2, timeout=3000)),
     ],
 )
+
+PROPS["C13"] = dict(
+    pkg="c13", race=True, level="exploration",
+    technique="rapid-generated real-time time-lines (writers, boundary-aimed bursts, restarts) against an invariant over the measured write history and the resulting files; race detector",
+    level_text="Exploration over schedules and histories in real time: the rotation interval is 1-2 s (public TimeRotation), 8 generated time-lines run in parallel per case with 1-16 writers whose writes are aimed at real interval boundaries, idle intervals and stop/start cycles inside one second; afterwards every file must be named name.<14 digits>, the multiset of well-formed self-describing records must equal what was written (nothing lost, duplicated, torn or truncated), no record may sit in a file named later than the write's completion, and with one writer a write after a boundary must be in that interval's file; built with -race.",
+    level_note="Interleavings and boundary hits are sampled; a writer cannot be frozen between loading the file pointer and writing. Timestamps are compared with a 5 ms margin; assumes the wall clock does not step.",
+    rule="generated real-time time-lines, 8 per case in parallel",
+    steps=[
+        dict(test="^TestC13_Timelines$", quick=dict(checks=3, timeout=900, shrink="1s"), thorough=dict(checks=6, shards=8, timeout=3000, shrink="1s")),
+    ],
+)
